@@ -1,6 +1,6 @@
 MOD = "github.com/junegunn/fzf"
 ALGO = dict(pkg=MOD + "/src/algo", test_pkg="./src/algo", patterns="./src/algo,./src/util", harness_dirs=["algo"])
-SRC = dict(pkg=MOD + "/src", test_pkg="./src", patterns="./src,./src/algo,./src/util", harness_dirs=["algo", "src"])
+SRC = dict(pkg=MOD + "/src", test_pkg="./src", patterns="./src,./src/algo,./src/util", harness_dirs=["algo", "util", "src"])
 
 
 def product(**axes):
@@ -52,6 +52,7 @@ LIFTS = [
     dict(name="plainBuilder", file="src/core.go", func="Run", contains="item.text, item.colors = ansiProcessor(data)", pkg="./src"),
     dict(name="nthBuilder", file="src/core.go", func="Run", contains="item.origText = &data", pkg="./src"),
     dict(name="walkFn", file="src/reader.go", func="readFiles", contains="filepath.SkipDir", pkg="./src"),
+    dict(name="expand", file="src/terminal.go", func="replacePlaceholder", contains="parsePlaceholder(match)", pkg="./src"),
 ]
 
 
